@@ -40,11 +40,28 @@ def run(tier):
                          key=o['problem'][:60])
         if len(ck.cov['samples']) < 4 and o['decision']['A'] == 'ok' and len(o['text']) > 40:
             ck.sample({'grammar_text': o['text'], 'decisions': o['decision']})
+    # code -> spec: executions of the checked-in bootstrap parser (a GENERATED parser) are recorded and validated by TLC against
+    # spec/PegTrace.tla instantiated with tatsu/_tatsu.ebnf (generated-parser flavour of PegMachine): every option tried, every
+    # backtrack, cut, memo replay and every node handed to a GrammarSemantics action must be what the grammar file prescribes
+    from ..pegcheck import validate_records
+    from ..suitetraces import record_boot_case, suite_part
+    short = [t for t in texts if len(t) <= 400]
+    step = 4 if tier == 'quick' else 1
+    pick = short[ck.seed % step::step]
+    bchunks = [{'texts': pick[i:i + 10], 'label': 'C15 corpus', 'offset': i} for i in range(0, len(pick), 10)]
+    brecs = [r for ch in pmap(record_boot_case, bchunks, procs=16, chunk=1, recycle=8) for r in ch]
+    good = [r for r in brecs if 'skip' not in r]
+    ck.notes['bootstrap_traces_skipped'] = len(brecs) - len(good)
+    if len(good) < len(pick) // 2:
+        raise __import__('harness.tlc', fromlist=['x']).MachineryError(f'only {len(good)} bootstrap executions recorded for {len(pick)} texts')
+    validate_records(ck, good, shards=14, label='bootstrap parser vs tatsu/_tatsu.ebnf (corpus)', corrupt_selftest=True)
+    suite_part(ck, tier, 'gen', 'bootstrap parser vs tatsu/_tatsu.ebnf (test-suite)')
     ck.cov['distinct_nontrivial'] = acc
     ck.notes.update({'texts': len(texts), 'accepted': acc, 'rejected': rej, 'programs': len(texts), 'disagreements_checked': len(texts) * 3})
     ck.cov['rule'] = (f'{len(valid)} valid or near-valid grammar texts (full-language corpus, syntax variants covering the productions and options of '
                       'the TatSu grammar incl. deprecated forms, seeded random core grammars) + character-level mutants (insert / delete / transpose); '
                       'non-trivial = text accepted by the shipped bootstrap parser')
-    ck.assumptions += ['no TLA+ model of the TatSu grammar itself: the grammar file is the specification and the three parsers are compared with each other '
-                       '(translation validation by differential execution); per-production coverage is by construction of the corpus, not measured on a spec']
+    ck.assumptions += ['the grammar file is the specification: the four routes are compared with each other (differential execution) and the bootstrap '
+                       "parser's executions are validated against PegMachine instantiated with the grammar file; regular expressions and whitespace/comment "
+                       'skipping enter the specification as oracle tables computed with Python re; per-production coverage is by construction of the corpus']
     return ck.finish()
